@@ -32,8 +32,9 @@ from vq.refs import c04_ref as R
 
 # float32 pipeline, errors relative to the largest magnitude of the quantities compared (see meta for the
 # measured clean-tree distributions these are based on)
-TOL_BATCH = 5e-6
-TOL_LIN = 5e-5
+TOL_BATCH = 1e-5
+TOL_SUB = 2e-5
+TOL_LIN = 1e-4
 TOL_PART = 2e-5
 TOL_ANALYTIC = 1e-4
 # a reconstruction mask whose total aperture weight is below half a pixel is outside the domain (division by ~0)
@@ -125,10 +126,19 @@ def _common(draw, analytic=False):
     energy = draw(st.sampled_from([60e3, 80e3, 200e3, 300e3]))
     lam = R.wavelength(energy)
     scan = [draw(st.integers(4, 12)), draw(st.integers(4, 12))]
-    ratio = [draw(st.integers(40, 250)) / 100.0 for _ in range(2)]
-    ss = [_sig(1.0 / (scan[i] * rs[i] * ratio[i]), 4) for i in range(2)]
-    if draw(st.integers(0, 2)) == 0:
-        ss[1] = ss[0]
+    # "lattice" configurations (1 in 5): scan frequencies commensurate with the detector grid, angles multiples of
+    # pi/4, cut-off on a pixel radius -- the exact ties and zeros of the transfer function live here
+    lattice = draw(st.integers(0, 4)) == 4
+    angles = st.sampled_from([0.0, 0.785398, 1.570796, -1.570796, 3.141593, -0.785398]) if lattice else st.integers(-3141, 3141).map(lambda v: v / 1000.0)
+    if lattice:
+        rs = g["rs"] = [rs[0], rs[0]]
+        ratio = [draw(st.sampled_from([0.5, 1.0, 2.0]))] * 2
+        ss = [1.0 / (scan[i] * rs[i] * ratio[i]) for i in range(2)]
+    else:
+        ratio = [draw(st.integers(40, 250)) / 100.0 for _ in range(2)]
+        ss = [_sig(1.0 / (scan[i] * rs[i] * ratio[i]), 4) for i in range(2)]
+        if draw(st.integers(0, 2)) == 0:
+            ss[1] = ss[0]
     kr = [math.hypot(i * rs[0], j * rs[1]) for i, j in px]
     kmax = max(max(kr), min(rs))
     amax = kmax * lam
@@ -141,12 +151,12 @@ def _common(draw, analytic=False):
     if draw(st.booleans()):
         syms.append(("C12", _sig(draw(st.integers(-200, 200)) / 100.0 * s_mean / amax)))
         if draw(st.integers(0, 5)) != 0:
-            syms.append(("phi12", draw(st.integers(-3141, 3141)) / 1000.0))
+            syms.append(("phi12", draw(angles)))
     if not analytic:
         if draw(st.integers(0, 9)) < 3:
             syms.append(("C21", _sig(draw(st.integers(-300, 300)) / 100.0 * s_mean / amax**2)))
             if draw(st.booleans()):
-                syms.append(("phi21", draw(st.integers(-3141, 3141)) / 1000.0))
+                syms.append(("phi21", draw(angles)))
         if draw(st.integers(0, 9)) < 3:
             syms.append(("C30", _sig(draw(st.integers(-300, 300)) / 100.0 * s_mean / amax**3)))
     if analytic and draw(st.integers(0, 6)) == 0:
@@ -163,6 +173,8 @@ def _common(draw, analytic=False):
 
     if draw(st.integers(0, 3)) == 0:
         kc = 3.0 * kmax  # every pixel well inside the aperture: all weights exactly 1
+    elif lattice:
+        kc = rs[0] * draw(st.integers(2, 2 * max(2, int(round(kmax / rs[0]))) + 1)) / 2.0
     else:
         lo = max(0.6 * kmax, 1.2 * min(rs))
         hi = 1.4 * kmax + max(rs)
@@ -180,9 +192,10 @@ def _common(draw, analytic=False):
         units=draw(st.sampled_from(["A^-1", "A^-1", "A^-1", "mrad"])),
         scan=scan,
         scan_sampling=ss,
-        stack={"seed": draw(st.integers(0, 10**6)), "eps": draw(st.sampled_from([0.05, 0.1, 0.2, 0.5]))},
+        stack={"seed": draw(st.integers(0, 10**6)), "eps": draw(st.sampled_from([0.1, 0.2, 0.5, 1.0]))},
         abers=abers,
-        rot=0.0 if draw(st.integers(0, 4)) == 0 else draw(st.integers(-3141, 3141)) / 1000.0,
+        rot=draw(angles) if lattice else 0.0 if draw(st.integers(0, 4)) == 0 else draw(st.integers(-3141, 3141)) / 1000.0,
+        lattice=lattice,
         cutoff=cutoff,
         sub=sub,
         route=draw(st.sampled_from(["init", "override"])),
@@ -195,10 +208,24 @@ def _batch_list(draw, nr):
     nd = R.non_divisor(nr)
     if nd:
         must.add(nd)
+    big = [nr + draw(st.integers(1, 6))] if draw(st.integers(0, 2)) == 0 else []
     if nr <= 9:
-        return list(range(1, nr + 1))
+        return list(range(1, nr + 1)) + big
     extra = draw(st.lists(st.integers(1, nr), min_size=0, max_size=3))
-    return sorted(b for b in must.union(extra) if b >= 1)
+    return sorted(b for b in must.union(extra) if b >= 1) + big
+
+
+@st.composite
+def _history_entry(draw, nr):
+    """An earlier reconstruct() call on the instance that is then re-used: other rotation angle (same aberrations,
+    3 in 4), any kernel, any batch size."""
+    drot = draw(st.integers(50, 3000)) / 1000.0 * draw(st.sampled_from([1.0, -1.0]))
+    return {
+        "kernel": draw(st.sampled_from(sorted(R.FAMILY))),
+        "drot": 0.0 if draw(st.integers(0, 5)) == 5 else drot,
+        "abers": draw(st.sampled_from(["same", "same", "same", "half"])),
+        "bs": draw(st.none() | st.integers(1, nr)),
+    }
 
 
 @st.composite
@@ -215,8 +242,8 @@ def meta_cases(draw):
         kernel2=draw(st.sampled_from(R.KERNELS[fam])),
         up=draw(st.sampled_from([None, 1, 2, 2, 3, 3])),
         # the first non-zero scan frequency is 2 qmax / n: keep the low-pass above it so that something survives
-        q_lowpass=_sig(qmax * draw(st.integers(max(30, int(250 / min(case["scan"])) + 1), 125)) / 100.0, 4) if draw(st.integers(0, 2)) == 0 else None,
-        q_highpass=_sig(qmax * draw(st.integers(5, 50)) / 100.0, 4) if draw(st.integers(0, 3)) == 0 else None,
+        q_lowpass=_sig(qmax * draw(st.integers(max(30, int(250 / min(case["scan"])) + 1), 125)) / 100.0, 4) if draw(st.booleans()) else None,
+        q_highpass=_sig(qmax * draw(st.integers(5, 50)) / 100.0, 4) if draw(st.integers(0, 2)) == 0 else None,
         flip=draw(st.booleans()),
         soft=draw(st.sampled_from([True, True, True, False])),
         batches=_batch_list(draw, nr),
@@ -227,6 +254,7 @@ def meta_cases(draw):
             "bs": draw(st.none() | st.integers(1, nr)),
         },
         part=sorted(int(v) for v in rngp.choice(nr, size=na, replace=False)),
+        history=draw(st.lists(_history_entry(nr), min_size=0, max_size=2)),
     )
     return case
 
@@ -274,7 +302,7 @@ class _Setup:
         s = self.case["stack"]
         return R.make_stack(s["seed"] if seed is None else seed, s["eps"], self.n, self.scan)
 
-    def build(self, q, stack, route="init", px=None, soft=True, crop=None, perturb=0.0):
+    def build(self, q, stack, route="init", px=None, soft=True, crop=None, perturb=0.0, rot=None, abers=None):
         """A fresh instance.  px: construct from this pixel list (stack rows must match) instead of the full mask.
         perturb: relative (magnitudes, cut-off) / absolute in rad (angles) change of every hyper-parameter."""
         torch, cp, Dataset2d, Dataset3d, DP = q
@@ -283,14 +311,15 @@ class _Setup:
         vd = Dataset3d.from_array(np.array(stack, dtype=np.float32), name="vbf", units=("index", "A", "A"), sampling=(1, self.ss[0], self.ss[1]))
         md = Dataset2d.from_array(mask.copy(), name="mask", units=(self.units, self.units), sampling=tuple(msamp))
         init = route == "init"
-        abers = {k: (v + perturb if "angle" in k or k.startswith("phi") else v * (1.0 + perturb)) for k, v in self.abers}
+        abers = {k: (v + perturb if _is_angle(k) else v * (1.0 + perturb)) for k, v in (self.abers if abers is None else abers)}
+        rot = self.rot if rot is None else rot
         return DP.from_virtual_bfs(
-            vd, md, energy=float(self.case["energy"]), rotation_angle=(self.rot + perturb) if init else 0.0,
+            vd, md, energy=float(self.case["energy"]), rotation_angle=(rot + perturb) if init else 0.0,
             aberration_coefs=abers if init else {}, semiangle_cutoff=self.cutoff * (1.0 + perturb), soft_edges=bool(soft),
             crop_bf_mask=self.crop if crop is None else crop, bf_mask_padding_px=int(self.case.get("pad", 1)), verbose=False,
         )  # fmt: skip
 
-    def run(self, q, dp, sel, route="init", bs=None, **kw):
+    def run(self, q, dp, sel, route="init", bs=None, rot=None, abers=None, **kw):
         """reconstruct on the pixels `sel` (indices into the construction mask's stack order; None = the
         construction mask itself, passed as bf_mask=None).  Returns (corrected_stack, corrected_bf) as float64."""
         torch = q[0]
@@ -307,9 +336,10 @@ class _Setup:
             flags[torch.tensor(sel, dtype=torch.long)] = True
             bfm = torch.zeros_like(inst)
             bfm[inst] = flags
-        if route == "override":
-            kw["override_aberration_coefs"] = dict(self.abers)
-            kw["override_rotation_angle"] = self.rot
+        if route == "override" or abers is not None:
+            kw["override_aberration_coefs"] = dict(self.abers if abers is None else abers)
+        if route == "override" or rot is not None:
+            kw["override_rotation_angle"] = self.rot if rot is None else rot
         dp.reconstruct(bf_mask=bfm, max_batch_size=bs, verbose=False, **kw)
         cs = dp.corrected_stack.detach().cpu().numpy().astype(np.float64)
         bf = dp.corrected_bf.detach().cpu().numpy().astype(np.float64)
@@ -346,9 +376,15 @@ class _Setup:
             "aberrations:" + ("+".join(sorted(k for k, v in self.canon.items() if not k.startswith("phi") and v != 0.0)) or "none"),
             "symmetric_mask" if R.is_symmetric(self.px) else "asymmetric_mask",
         ]
+        if c.get("lattice"):
+            out.append("lattice")
         if any(k in R.ALIASES for k, _ in self.abers):
             out.append("alias_keys")
         return out
+
+
+def _is_angle(key):
+    return key.startswith("phi") or key.endswith("_angle")
 
 
 def _finite(case, what, *arrs):
@@ -397,7 +433,7 @@ def _check_meta(ctx, case):
         parallax_flip_phase=bool(case.get("flip", True)),
     )  # fmt: skip
     soft = bool(case.get("soft", True))
-    batches = sorted({int(b) for b in case["batches"] if 1 <= int(b) <= S.nr})
+    batches = sorted({int(b) for b in case["batches"] if int(b) >= 1})
     unequal = [b for b in batches if 1 < b < S.nr and S.nr % b]
     classes = S.classes() + [
         "kernel:" + fam,
@@ -409,6 +445,14 @@ def _check_meta(ctx, case):
     ]
     if fam == "prlx":
         classes.append("flip" if kw["parallax_flip_phase"] else "no_flip")
+    if fam in ("obf", "mf") and (kw["q_lowpass"] or kw["q_highpass"]):
+        classes.append("two_pass+filter")
+    hist = case.get("history") or []
+    classes.append("history:%d" % len(hist))
+    if any(h["drot"] != 0.0 and h["abers"] == "same" for h in hist):
+        classes.append("history:same_aberrations_other_rotation")
+    if any(b > S.nr for b in batches):
+        classes.append("batch_size>num_bf")
 
     with ctx.sut(case, "evaluate_probe (aperture weights)"):
         _ax, _ay, w = S.grid(q)
@@ -462,10 +506,25 @@ def _check_meta(ctx, case):
     # (1) schedule invariance, on one re-used instance, hyper-parameters by the drawn route, second kernel name
     with ctx.sut(case, "from_virtual_bfs"):
         dpb = S.build(q, X, S.route, soft=soft)
+    # call history: earlier calls on that instance with another rotation angle / kernel / batch size (overrides).
+    # Each must give what a fresh instance gives for the same call, and must leave nothing behind for the calls
+    # that follow (all of which are compared with the fresh-instance result S0)
+    for h in case.get("history") or []:
+        hrot = S.rot + float(h["drot"])
+        habers = S.abers if h["abers"] == "same" else [(k, v if _is_angle(k) else 0.5 * v) for k, v in S.abers]
+        hkw = dict(kw, deconvolution_kernel=h["kernel"])
+        with ctx.sut(case, "reconstruct(%s, override_rotation_angle=%r) on the re-used and on a fresh instance" % (h["kernel"], hrot)):
+            Sh, Bh = S.run(q, dpb, S.sel, S.route, h.get("bs"), rot=hrot, abers=None if h["abers"] == "same" else habers, **hkw)
+            Sf, Bf = S.run(q, S.build(q, X, "init", soft=soft, rot=hrot, abers=habers), sel0, "init", h.get("bs"), **hkw)
+        _finite(case, "reconstruction (%s)" % h["kernel"], Sf, Bf)
+        what = "reconstruct(%s, rotation %r, aberrations %s, max_batch_size=%r) on an instance with hyper-parameters given as overrides vs on a fresh instance" % (h["kernel"], hrot, h["abers"], h.get("bs"))
+        _cmp(ctx, case, "history", Sh, Sf, float(np.max(np.abs(Sf))), TOL_BATCH, "corrected_stack, " + what)
+        _cmp(ctx, case, "history", Bh, Bf, float(np.max(np.abs(Bf))) + float(np.max(np.abs(Sf))), TOL_BATCH, "corrected_bf, " + what)
+        ctx.count("history_calls")
     for bs in batches:
         with ctx.sut(case, "reconstruct(max_batch_size=%d)" % bs):
             Sb, Bb = S.run(q, dpb, S.sel, S.route, bs, deconvolution_kernel=case["kernel2"], **kw)
-        what = "kernel %s, %d pixels, max_batch_size=%d vs un-batched" % (fam, S.nr, bs)
+        what = "kernel %s, %d pixels, max_batch_size=%d vs max_batch_size=None on a fresh instance" % (fam, S.nr, bs)
         _cmp(ctx, case, "batch", Sb, S0, s_stack, TOL_BATCH, "corrected_stack, " + what, d_stack)
         _cmp(ctx, case, "batch", Bb, B0, s_bf, TOL_BATCH, "corrected_bf, " + what, d_bf)
 
@@ -477,22 +536,28 @@ def _check_meta(ctx, case):
             Sc, Bc = S.run(q, dpc, None, "init", None, deconvolution_kernel=case["kernel"], **kw)
         what = "kernel %s: reconstruct(bf_mask=sub-mask of %d/%d pixels) vs an instance built from that sub-mask and its images" % (fam, S.nr, S.n)
         # (with crop_bf_mask=True the two instances use detector grids of different size: k differs in the last bit)
-        _cmp(ctx, case, "submask", S0, Sc, float(np.max(np.abs(Sc))), TOL_BATCH, "corrected_stack, " + what, d_stack)
-        _cmp(ctx, case, "submask", B0, Bc, float(np.max(np.abs(Bc))) + float(np.max(np.abs(Sc))), TOL_BATCH, "corrected_bf, " + what, d_bf)
+        _cmp(ctx, case, "submask", S0, Sc, float(np.max(np.abs(Sc))), TOL_SUB, "corrected_stack, " + what, d_stack)
+        _cmp(ctx, case, "submask", B0, Bc, float(np.max(np.abs(Bc))) + float(np.max(np.abs(Sc))), TOL_SUB, "corrected_bf, " + what, d_bf)
 
     # (2) linearity in the stack
     lin = case["lin"]
     a, b = float(lin["a"]), float(lin["b"])
     Y = S.stack(lin["seed"])
     Z = (a * X.astype(np.float64) + b * Y.astype(np.float64)).astype(np.float32)
+    # all three runs with the same batch size: the kernel factors are then bit-identical and only the stack differs
+    Sx, Bx = S0, B0
+    if lin.get("bs") is not None:
+        with ctx.sut(case, "reconstruct(max_batch_size=%r)" % lin["bs"]):
+            Sx, Bx = S.run(q, dpa, sel0, "init", lin["bs"], deconvolution_kernel=case["kernel"], **kw)
     with ctx.sut(case, "from_virtual_bfs + reconstruct (second stack, combined stack)"):
         Sy, By = S.run(q, S.build(q, Y, "init", soft=soft), sel0, "init", lin.get("bs"), deconvolution_kernel=case["kernel"], **kw)
         Sz, Bz = S.run(q, S.build(q, Z, "init", soft=soft), sel0, "init", lin.get("bs"), deconvolution_kernel=case["kernel"], **kw)
     _finite(case, "reconstruction (%s)" % fam, Sy, Sz)
-    sc = abs(a) * s_stack + abs(b) * float(np.max(np.abs(Sy)))
-    what = "kernel %s: R(%g X + %g Y) vs %g R(X) + %g R(Y)" % (fam, a, b, a, b)
-    _cmp(ctx, case, "linear", Sz, a * S0 + b * Sy, sc, TOL_LIN, "corrected_stack, " + what)
-    _cmp(ctx, case, "linear", Bz, a * B0 + b * By, abs(a) * s_bf + abs(b) * (float(np.max(np.abs(By))) + float(np.max(np.abs(Sy)))), TOL_LIN, "corrected_bf, " + what)
+    sc = abs(a) * float(np.max(np.abs(Sx))) + abs(b) * float(np.max(np.abs(Sy)))
+    sc_bf = abs(a) * (float(np.max(np.abs(Bx))) + float(np.max(np.abs(Sx)))) + abs(b) * (float(np.max(np.abs(By))) + float(np.max(np.abs(Sy))))
+    what = "kernel %s: R(%g X + %g Y) vs %g R(X) + %g R(Y) (max_batch_size=%r)" % (fam, a, b, a, b, lin.get("bs"))
+    _cmp(ctx, case, "linear", Sz, a * Sx + b * Sy, sc, TOL_LIN, "corrected_stack, " + what)
+    _cmp(ctx, case, "linear", Bz, a * Bx + b * By, sc_bf, TOL_LIN, "corrected_bf, " + what)
 
     # (3) complementary sub-masks recombine, single-pass kernels.  (soft_edges=False instances still normalise
     # by the soft-aperture weight; which weight the statement means there is not settled, so such instances are
